@@ -589,3 +589,53 @@ def tsident(pid):
         res.floor("codec sites", n, ctx.table("floors").get("tsident_sites", 0))
         return res
     return run
+
+
+def saturate(pid):
+    """R-SATURATE: times outside 1601..~60056 saturate at the ends of the range.  In the conversions toward the file
+    representation (the functions of internal::timestamp that return a u64 tick count) an overflow that was *checked*
+    (`checked_add`, `checked_sub`, `checked_mul`) must be answered with the end of the range it ran over: u64::MAX for
+    an addition or multiplication, 0 for a subtraction.  Any other answer (the epoch, a default, a panic through
+    unwrap / expect) makes a far-future time come back as 1970 or fail instead of saturating."""
+    import re as _re
+    from prov import Prov as _Prov
+    from dataflow import forward_taint as _ft
+
+    def run(ctx):
+        res = RuleResult("R-SATURATE(%s)" % pid, "in the to-timestamp conversions a checked addition / multiplication falls back to u64::MAX and a checked subtraction to 0 (no other fallback, no unwrap)")
+        n = 0
+        for f in ctx.fx.fns.values():
+            if not f.path.startswith("internal::timestamp::") or f.kind == "closure" or f.locals[0]["s"] != "u64" or "::tests::" in f.path:
+                continue
+            n += 1
+            v = view(ctx, f)
+            pr = _Prov(f)
+            srcs = [(c, c.name.split("::")[-1]) for c in v.calls.values() if c.name.split("::")[-1] in ("checked_add", "checked_sub", "checked_mul") and "num::" in c.name and not c.term["dest"]["proj"]]
+            bad = None
+            for c, op in srcs:
+                T = _ft(f, {c.term["dest"]["local"]})
+                for c2 in v.calls.values():
+                    short = c2.name.split("::")[-1]
+                    if "option::Option" not in c2.name or not c2.term["args"] or op_local(c2.term["args"][0]) not in T:
+                        continue
+                    if short in ("unwrap", "expect"):
+                        bad = (c2, "%s() result is unwrapped: the conversion panics where it should saturate" % op)
+                    elif short in ("unwrap_or_default", "unwrap_or_else"):
+                        if not (short == "unwrap_or_default" and op == "checked_sub"):
+                            bad = (c2, "%s() falls back through %s(): not the end of the range" % (op, short))
+                    elif short == "unwrap_or" and len(c2.term["args"]) > 1:
+                        fb = pr.operand(c2.term["args"][1])
+                        want = r"^const:(0|(\w+::)*MIN)$" if op == "checked_sub" else r"^const:(18446744073709551615|(\w+::)*MAX)$"
+                        if not _re.match(want, fb):
+                            bad = (c2, "%s() falls back to %s instead of %s" % (op, fb[:40], "0" if op == "checked_sub" else "u64::MAX"))
+                    if bad:
+                        break
+                if bad:
+                    break
+            if bad:
+                res.fail(Finding(res.rule, "R-SATURATE/%s/overflow-not-saturated" % f.path, "%s: %s - a time beyond the representable range is stored as something other than the nearest end of the range" % (f.path.split("::")[-1], bad[1]), f, bad[0].term["span"]))
+            else:
+                res.ok({"function": f.path, "checked_operations": len(srcs), "saturating_calls": sum(1 for c in v.calls.values() if c.name.split("::")[-1].startswith("saturating_"))}, nontrivial=bool(srcs))
+        res.floor("to-timestamp conversion functions", n, ctx.table("floors").get("saturate_fns", 0))
+        return res
+    return run
